@@ -64,6 +64,35 @@ void h_reset_window(void) {
   __CPROVER_assert(0, "canary: harness end reachable");
 #endif
 }
+
+/* hextb load() from EVERY power-on memory: afterwards each word of the RTL memory is a function of the file alone (the
+   file's word where the file has one, zero elsewhere).  File operations are stubs; the two bulk operations on the RTL
+   memory are modelled on the ghost word g_k.  With the reset window above (no word changes, registers reset) the whole
+   machine state at the first executed instruction is independent of the power-on state. */
+static size_t g_file_size; static uint32_t g_file_header, g_fileword_k; static size_t g_read_bytes;
+#define FILE_OPEN() ((void)0)
+#define FILE_SIZE() ((long)g_file_size)
+static inline void FILE_READ_U32(unsigned *dst) { *dst = g_file_header; }
+#define FILE_READ_BUFFER(n) do { g_read_bytes = (n); } while (0)   /* istream::read into the zero-initialised staging vector */
+#define TB_MEMZERO_DUT(n) do { if (4 * (size_t)g_k < (size_t)(n)) M->memory_q[g_k] = 0; } while (0)                       /* std::memset(memory_q.data(), 0, n) */
+#define TB_MEMCPY_TO_DUT(n) do { if (4 * (size_t)g_k + 4 <= (size_t)(n)) M->memory_q[g_k] = (4 * (size_t)g_k < g_read_bytes) ? g_fileword_k : 0; } while (0) /* std::memcpy(memory_q.data(), buffer.data(), n) */
+#define TB_BANNER(n) ((void)(n))
+TB_LOAD_FN
+void h_load_determined(void) {
+  size_t present = nondet_size(); g_file_header = nondet_u32(); g_fileword_k = nondet_u32();    /* the file: bytes after the header, header word, its word at index g_k (zero padded) */
+  __CPROVER_assume(present <= 4u * (size_t)RTL_WORDS - 4);
+  g_file_size = 4 + present;
+  power_on();
+  g_k = nondet_u32(); __CPROVER_assume(g_k < RTL_WORDS);
+  uint32_t cex_k = g_k, cex_poweron_k = M->memory_q[g_k];
+  tb_load();
+  size_t rounded = (present + 3) & ~(size_t)3;
+  uint32_t expected = (4 * (size_t)g_k < rounded) ? g_fileword_k : 0;
+  __CPROVER_assert(M->memory_q[g_k] == expected, "C13 load: after load() every word of the RTL memory is determined by the file (its word, zero beyond it), whatever the power-on contents");
+#ifdef CANARY
+  __CPROVER_assert(0, "canary: harness end reachable");
+#endif
+}
 #endif
 """
 
@@ -71,7 +100,8 @@ void h_reset_window(void) {
 def build_unit(chk):
     text, info = tbunit.unit_text(chk, syscall_entry_hook="syscall_entry(sc)")
     text = text.replace("#define TB_SYSCALL_ENTRY(sc) syscall_entry(sc)\n", "static void syscall_entry(Syscall sc);\n#define TB_SYSCALL_ENTRY(sc) syscall_entry(sc)\n")
-    return chk.write("c13_unit.c", text + HARNESS), info
+    import tbx
+    return chk.write("c13_unit.c", text + HARNESS.replace("TB_LOAD_FN", tbx.load_fn(chk.manifest))), info
 
 
 def native(chk):
@@ -93,6 +123,13 @@ def native(chk):
 
 
 def replay_state(exe, st, cwd):
+    if st.get("readword"):
+        args = [exe, "readword", str(st["readword"])]
+        rc, o, e, _ = hv.run(args, timeout=300, cwd=cwd)
+        try:
+            return json.loads(o.strip().splitlines()[-1])
+        except Exception:
+            return {"ok": None, "error": (o + e)[-600:]}
     args = [exe, "replay"] + [str(st[k]) for k in ("pc", "areg", "breg", "oreg", "w0", "k", "sp")]
     rc, o, e, _ = hv.run(args, timeout=120, cwd=cwd)
     try:
@@ -124,6 +161,8 @@ def main(chk, replay_file):
     wl = ["--unwindset", "h_reset_window.0:%d" % (info["RESET_END"] + 2)]
     jobs = [
         J("reset_window.contract", unit, "h_reset_window", unwind=uw, flags=wl, timeout=1500, stop_on_fail=True, mem_est=6, functions=["hextb run()", "handleSyscall", "Vhex_eval_step"], note="every power-on state x every memory content"),
+        J("load.determined", unit, "h_load_determined", functions=["hextb load()"], note="every power-on memory x every file: memory after load() is a function of the file"),
+        J("load.canary", unit, "h_load_determined", defines=["CANARY"], kind="canary", checks=[]),
         J("reset_window.canary", unit, "h_reset_window", unwind=uw, flags=wl, defines=["CANARY"], kind="canary", checks=[]),
         J("reset_window.cover", unit, "h_reset_window", unwind=uw, flags=wl, defines=["COVER"], kind="cover", cover=True, checks=[]),
     ]
@@ -159,6 +198,20 @@ def main(chk, replay_file):
                       "w0": hv.parse_c_int(cex["cex_w0"]), "k": hv.parse_c_int(cex.get("cex_k", "0")), "sp": hv.parse_c_int(cex.get("cex_sp", "0"))}
             except (KeyError, ValueError):
                 pass
+            if j.name.startswith("load."):
+                try:
+                    st = {"readword": hv.parse_c_int(cex["cex_k"])}
+                except (KeyError, ValueError):
+                    st = {"readword": 100}
+                rr = replay_state(exe, st, chk.out)
+                if rr.get("ok") is False:
+                    json.dump({"property": PID, "obligation": name, "desc": f["desc"], "state": st, "real_code_result": rr, "how": "./check C13 --replay " + p}, open(p, "w"), indent=1)
+                    chk.add_violation(name, p, "%s; real hextb: %s, %s under seed %s" % (f["desc"], rr.get("program"), rr.get("why"), rr.get("seed")), True)
+                else:
+                    # the obligation states one sufficient mechanism (load() overwrites the whole array); other mechanisms are
+                    # possible, so without a failing run on the real testbench this is no verdict
+                    chk.undecided.append("%s %s (no run of the real testbench depends on the power-on memory: another mechanism may define the memory)" % (name, f["desc"]))
+                continue
             if st is not None:
                 rr = replay_state(exe, st, chk.out)
                 if rr.get("ok") is False:
